@@ -85,7 +85,7 @@ func drawUpstreamErrors(rt *rapid.T, w *WorldDesc) *Plan {
 		op.ReqBin = mustMarshal(req)
 		op.ReqJSON = jsonOf(req)
 		op.RespBin = mustMarshal(md.NewResp())
-		op.DeadlineMs = 60000
+		op.DeadlineMs = 3600000 // virtual time is free: a slowly delivered request must not run into the caller's own deadline
 		p.Ops = append(p.Ops, op)
 	}
 	p.Schedule = drawSchedule(rt, 32)
@@ -381,7 +381,7 @@ func (propC10) Draw(rt *rapid.T, w *WorldDesc, mode string) *Plan {
 		op.ReqBin = mustMarshal(req)
 		op.ReqJSON = jsonOf(req)
 		op.ReqChunks = drawChunks(rt, l+".reqChunks")
-		op.DeadlineMs = 60000
+		op.DeadlineMs = 3600000 // virtual time is free: a slowly delivered request must not run into the caller's own deadline
 		p.Ops = append(p.Ops, op)
 	}
 	p.Schedule = drawSchedule(rt, 32)
